@@ -1271,6 +1271,26 @@ func ruleSnoopCommandsComplete(r *Run, rule string) {
 						if !ok || isCmdInfo(mt.Elem()) == nil {
 							return true
 						}
+						// the value stored is the command being created (the variable defined from the literal)
+						isNew := false
+						if vid, ok := ast.Unparen(as.Rhs[0]).(*ast.Ident); ok {
+							ast.Inspect(fd.Body, func(q ast.Node) bool {
+								if d2, ok := q.(*ast.AssignStmt); ok && len(d2.Lhs) == 1 && len(d2.Rhs) == 1 {
+									if l, ok := d2.Lhs[0].(*ast.Ident); ok && (info.Defs[l] == info.Uses[vid] || info.Uses[l] == info.Uses[vid]) {
+										if u, ok := ast.Unparen(d2.Rhs[0]).(*ast.UnaryExpr); ok && u.X == ast.Expr(cl) {
+											isNew = true
+										}
+										if d2.Rhs[0] == ast.Expr(cl) {
+											isNew = true
+										}
+									}
+								}
+								return true
+							})
+						}
+						if !isNew {
+							return true
+						}
 						if ms, ok := ast.Unparen(ix.X).(*ast.SelectorExpr); ok {
 							if kid, ok := ast.Unparen(ix.Index).(*ast.Ident); ok {
 								if s := info.Selections[ms]; s != nil {
@@ -1303,7 +1323,7 @@ func ruleSnoopCommandsComplete(r *Run, rule string) {
 						}
 						return true
 					})
-					r.check(len(inserts) > 0 && removed, rule, fmt.Sprintf("%s.%s:completion-removes-command", v.rel, declName(fd)), cb.Pos(), "the completion callback of a new command removes it from the command table under the key it is inserted with")
+					r.check(len(inserts) > 0 && removed, rule, fmt.Sprintf("%s.%s:completion-removes-command", v.rel, declName(fd)), cb.Pos(), "a new command is entered in the command table and its completion callback removes it under the key it is inserted with (insertions of the new command: %d)", len(inserts))
 					return true
 				})
 			}
@@ -1493,6 +1513,108 @@ func ruleDispatchConserves(r *Run, rule string) {
 					}
 					return true
 				})
+			}
+		}
+	}
+}
+
+// ruleSemConformance: the per-line reader/writer lock equals its reference model.
+func ruleSemConformance(r *Run, rule string) {
+	for _, m := range []string{"RLock", "RUnlock", "Lock", "Unlock"} {
+		conform(r, rule, "proc/comp", "Sem", m, "sem", nil)
+	}
+}
+
+// ruleOneLockPerLine: the function that hands out the lock of a line returns the semaphore
+// STORED in the table under the line's key; when it creates one it stores it under that same
+// key before returning it. A lock that is not stored is a different lock for every caller.
+func ruleOneLockPerLine(r *Run, rule string) {
+	w := r.W
+	for _, v := range variants(w) {
+		if v.pkg == nil || !v.pipelined() || !usesLineLocks(w, v) {
+			continue
+		}
+		info := v.info
+		for _, f := range v.pkg.Syntax {
+			for _, d := range f.Decls {
+				fd, ok := d.(*ast.FuncDecl)
+				if !ok || fd.Body == nil || fd.Type.Results == nil || len(fd.Type.Results.List) != 1 {
+					continue
+				}
+				rt := info.TypeOf(fd.Type.Results.List[0].Type)
+				isLock := isCompType(rt, "Sem")
+				if p, ok := rt.(*types.Pointer); ok && !isLock {
+					if n := namedOf(p.Elem()); n != nil && n.Obj().Pkg() != nil && n.Obj().Pkg().Path() == "sync" && n.Obj().Name() == "Mutex" {
+						isLock = true
+					}
+				}
+				if !isLock {
+					continue
+				}
+				// creations: x = &T{} / new(T); each must be followed by M[K] = x with K the key of the lookup x, _ = M[K]
+				var lookupMap types.Object
+				var lookupKey string
+				var lockVar types.Object
+				created, stored := false, false
+				ast.Inspect(fd.Body, func(m ast.Node) bool {
+					as, ok := m.(*ast.AssignStmt)
+					if !ok || len(as.Rhs) != 1 {
+						return true
+					}
+					if ix, ok := ast.Unparen(as.Rhs[0]).(*ast.IndexExpr); ok && len(as.Lhs) == 2 {
+						if ms, ok := ast.Unparen(ix.X).(*ast.SelectorExpr); ok {
+							if s := info.Selections[ms]; s != nil {
+								if _, isMap := s.Obj().Type().Underlying().(*types.Map); isMap {
+									lookupMap, lookupKey = s.Obj(), canonExpr(info, ix.Index)
+									if id, ok := as.Lhs[0].(*ast.Ident); ok {
+										lockVar = info.Defs[id]
+										if lockVar == nil {
+											lockVar = info.Uses[id]
+										}
+									}
+								}
+							}
+						}
+					}
+					if len(as.Lhs) == 1 {
+						if id, ok := as.Lhs[0].(*ast.Ident); ok && lockVar != nil && info.Uses[id] == lockVar {
+							switch x := ast.Unparen(as.Rhs[0]).(type) {
+							case *ast.UnaryExpr:
+								if _, ok := x.X.(*ast.CompositeLit); ok && x.Op == token.AND {
+									created = true
+								}
+							case *ast.CallExpr:
+								if fid, ok := x.Fun.(*ast.Ident); ok && fid.Name == "new" {
+									created = true
+								}
+							}
+						}
+						if ix, ok := as.Lhs[0].(*ast.IndexExpr); ok {
+							if ms, ok := ast.Unparen(ix.X).(*ast.SelectorExpr); ok {
+								if s := info.Selections[ms]; s != nil && s.Obj() == lookupMap && canonExpr(info, ix.Index) == lookupKey {
+									if id, ok := ast.Unparen(as.Rhs[0]).(*ast.Ident); ok && info.Uses[id] == lockVar {
+										stored = true
+									}
+								}
+							}
+						}
+					}
+					return true
+				})
+				if lookupMap == nil {
+					continue
+				}
+				// the result is the looked-up variable
+				returnsIt := true
+				ast.Inspect(fd.Body, func(m ast.Node) bool {
+					if rs, ok := m.(*ast.ReturnStmt); ok && len(rs.Results) == 1 {
+						if id, ok := ast.Unparen(rs.Results[0]).(*ast.Ident); !ok || info.Uses[id] != lockVar {
+							returnsIt = false
+						}
+					}
+					return true
+				})
+				r.check(returnsIt && (!created || stored), rule, fmt.Sprintf("%s.%s:one-lock-per-line", v.rel, declName(fd)), fd.Pos(), "the lock handed out for a line is the one stored in the table under the line's key (created: %v, stored under the looked-up key: %v)", created, stored)
 			}
 		}
 	}
